@@ -16,6 +16,7 @@ import (
 
 	"verifharness/drv"
 	"verifharness/opfix"
+	"verifharness/refstore"
 
 	"github.com/zitadel/oidc/v3/pkg/client"
 	"github.com/zitadel/oidc/v3/pkg/client/rp"
@@ -46,6 +47,24 @@ var idw *world // scratch world: value ids are the same in every world
 func epID(path string) int { return idw.reg.id(epKey(idw.customEps[path])) }
 
 var rsaPEM = pem.EncodeToMemory(&pem.Block{Type: "RSA PRIVATE KEY", Bytes: x509.MarshalPKCS1PrivateKey(opfix.RSAKey())})
+
+// storage capabilities of a provider: bit 0 client credentials, 1 token exchange, 2 device; 7 = all
+// (7 uses the device storage that hands out its own state object)
+func capStorage(st *refstore.Store, caps int) op.Storage {
+	if caps == 7 {
+		return st.AsStorageSharedDevice()
+	}
+	return st.AsStorage(caps&1 != 0, caps&2 != 0, caps&4 != 0)
+}
+
+func provCfgLists(lists bool) *op.Config {
+	c := provCfg()
+	if lists { // own lists instead of the package defaults
+		c.SupportedClaims = []string{"sub", "aud", "name"}
+		c.SupportedScopes = []string{"openid", "profile"}
+	}
+	return c
+}
 
 func provCfg() *op.Config {
 	return &op.Config{CryptoKey: sha256.Sum256([]byte("c20")), DefaultLogoutRedirectURI: "/logged-out", CodeMethodS256: true,
@@ -102,12 +121,16 @@ func genPopt(r drv.Rand) poptd {
 }
 
 func newProvider(i, stor int, opts []poptd, variant int) opd {
+	return newProviderCaps(i, stor, opts, variant, 7, false)
+}
+
+func newProviderCaps(i, stor int, opts []poptd, variant, caps int, lists bool) opd {
 	var cs []string
 	for _, o := range opts {
 		cs = append(cs, o.coq)
 	}
 	return opd{coq: fmt.Sprintf("(NewProvider %d %d [%s])", i, stor, strings.Join(cs, "; ")), kind: "prov", inst: i,
-		class: "NewProvider", sub: fmt.Sprintf("opts%d-v%d", min(len(opts), 3), variant),
+		class: "NewProvider", sub: fmt.Sprintf("opts%d-v%d-caps%d-lists=%v", min(len(opts), 3), variant, caps, lists),
 		run: func(w *world) {
 			st := opfix.NewStd()
 			w.stores[stor] = st
@@ -119,13 +142,13 @@ func newProvider(i, stor int, opts []poptd, variant int) opd {
 			var err error
 			switch variant {
 			case 1:
-				p, err = op.NewOpenIDProvider(opfix.Issuer, provCfg(), st.AsStorageSharedDevice(), oo...)
+				p, err = op.NewOpenIDProvider(opfix.Issuer, provCfgLists(lists), capStorage(st, caps), oo...)
 			case 2:
-				p, err = op.NewDynamicOpenIDProvider("", provCfg(), st.AsStorageSharedDevice(), oo...)
+				p, err = op.NewDynamicOpenIDProvider("", provCfgLists(lists), capStorage(st, caps), oo...)
 			case 3:
-				p, err = op.NewForwardedOpenIDProvider("", provCfg(), st.AsStorageSharedDevice(), oo...)
+				p, err = op.NewForwardedOpenIDProvider("", provCfgLists(lists), capStorage(st, caps), oo...)
 			default:
-				p, err = op.NewProvider(provCfg(), st.AsStorageSharedDevice(), op.StaticIssuer(opfix.Issuer), oo...)
+				p, err = op.NewProvider(provCfgLists(lists), capStorage(st, caps), op.StaticIssuer(opfix.Issuer), oo...)
 			}
 			if err == nil {
 				w.inst[i] = p
@@ -133,12 +156,14 @@ func newProvider(i, stor int, opts []poptd, variant int) opd {
 		}}
 }
 
-func newLegacy(i, stor int) opd {
-	return opd{coq: fmt.Sprintf("(NewLegacyServer %d 6)", i), kind: "legacy", inst: i, class: "NewLegacyServer", sub: "register",
+func newLegacy(i, stor int) opd { return newLegacyCaps(i, stor, 7) }
+
+func newLegacyCaps(i, stor, caps int) opd {
+	return opd{coq: fmt.Sprintf("(NewLegacyServer %d 6)", i), kind: "legacy", inst: i, class: "NewLegacyServer", sub: fmt.Sprintf("register-caps%d", caps),
 		run: func(w *world) {
 			st := opfix.NewStd()
 			w.stores[stor] = st
-			p, err := op.NewProvider(provCfg(), st.AsStorageSharedDevice(), op.StaticIssuer(opfix.Issuer), op.WithLogger(quiet))
+			p, err := op.NewProvider(provCfg(), capStorage(st, caps), op.StaticIssuer(opfix.Issuer), op.WithLogger(quiet))
 			if err != nil {
 				return
 			}
@@ -272,7 +297,30 @@ func provReq(i, stor, q int) opd {
 				rel := strings.TrimPrefix(s, opfix.Issuer)
 				out = append(out, w.reg.id("ep:"+rel+"|"+rel))
 			}
+			for _, k := range []string{"claims_supported", "scopes_supported"} {
+				var l []string
+				if xs, ok := r.JSON[k].([]any); ok {
+					for _, x := range xs {
+						l = append(l, fmt.Sprint(x))
+					}
+				}
+				out = append(out, w.reg.id(listKey(l, len(l))))
+			}
 			return out
+		}
+	}
+	if q == 4 { // behaviour: a fresh code flow followed by userinfo works and names the user
+		o.probe = func(w *world) []int {
+			tk := w.instFlow(i, stor, false)
+			h, eps := w.instHandler(i)
+			if h == nil {
+				return []int{99}
+			}
+			r := post(h, eps.Userinfo.Relative(), url.Values{}, false, tk.access)
+			if r.Status == 200 && r.Str("sub") == "alice" {
+				return []int{1}
+			}
+			return []int{0}
 		}
 	}
 	return o
